@@ -50,7 +50,8 @@ TAdd ==
           /\ WellFormed(Tr.nets[j])
           /\ LET nxt == NetOf(Tr.nets[j])
              IN /\ StepOK(cn, adds, nxt, h, w, total)
-                /\ drift' = (drift \/ nxt \notin AddResults(cn, h, w))
+                \* (the set of all optimal alignment paths is enumerated only for hypotheses inside the design bounds)
+                /\ drift' = (drift \/ (Len(h) <= 3 /\ nxt \notin AddResults(cn, h, w)))
                 /\ cn' = nxt
           /\ adds' = j /\ total' = total + w /\ lastH' = h /\ lastW' = w
     /\ UNCHANGED <<phase, paths>>
